@@ -35,6 +35,9 @@ void run_group(Rng & rng, int n, double tol)
       }
     };
     chk("dr_exp", mto_ld(G::dr_exp(a)), Jr, tol);
+    // the free functions of the LieGroup interface must be the same maps
+    chk("api_free_dr_exp", mto_ld(smooth::dr_exp<G>(a)), mto_ld(G::dr_exp(a)), sizeof(S) == 4 ? 1e-5 : 1e-13);
+    chk("api_free_dl_exp", mto_ld(smooth::dl_exp<G>(a)), mto_ld(G::dl_exp(a)), sizeof(S) == 4 ? 1e-5 : 1e-13);
     {
       // left Jacobian: Jl(a) = Jr(-a) = Ad(exp a) Jr(a); oracle Ad = expm(ad a)
       MatX Jl = jr_oracle<G>(VecX(-av));
@@ -45,6 +48,8 @@ void run_group(Rng & rng, int n, double tol)
     if (rn <= M_PIl - 1e-3L) {
       MatX Jri = Jr.inverse();
       chk("dr_expinv", mto_ld(G::dr_expinv(a)), Jri, tol);
+      chk("api_free_dr_expinv", mto_ld(smooth::dr_expinv<G>(a)), mto_ld(G::dr_expinv(a)), sizeof(S) == 4 ? 1e-5 : 1e-13);
+      chk("api_free_dl_expinv", mto_ld(smooth::dl_expinv<G>(a)), mto_ld(G::dl_expinv(a)), sizeof(S) == 4 ? 1e-5 : 1e-13);
       chk("dl_expinv", mto_ld(G::dl_expinv(a)), MatX(jr_oracle<G>(VecX(-av)).inverse()), tol);
       chk("dr_rminus", mto_ld(smooth::dr_rminus<G>(a)), Jri, tol);
       MatX sq = av.transpose() * Jri;
